@@ -191,7 +191,7 @@ func (r *runZeroConsumersClose) Next(t time.Time) time.Time {
 }
 
 func (r *runZeroConsumersClose) run() {
-	if r.s.consumptions.Count() <= 0 {
+	if r.s.ConsumerCount() <= 0 { // 任何协议(RTP/FLV)的消费者都算
 		hlsable := r.s.Hlsable()
 		if hlsable == nil || time.Now().Sub(hlsable.LastAccessTime()) >= r.d {
 			r.closed = true
